@@ -51,24 +51,28 @@ def worker(args):
     if bad and res.error is None:
         # refutation pass: bounded unrolling + grounded quantifiers, only to search real failing inputs; its models are
         # candidates that count only when the native replay reproduces them
+        done = set()
         for K in cfg.get("refute_bounds", [2, 3]):
             rcfg = dict(cfg)
             rcfg.update({"ground": K, "unroll": K, "timeout_ms": cfg.get("refute_timeout_ms", 8000), "both": False,
-                         "stop_after_failures": 3, "cvc5": False})
+                         "stop_after_failures": 12, "cvc5": False})
             rres = verify_fuc(key, rcfg)
             if rres.error:
                 out["refutations"].append({"bound": K, "error": rres.error})
                 continue
-            seen = set()
+            seen: Dict[str, int] = {}
             found = False
             for o in rres.obligations:
-                if o["status"] == "failed" and o["model"] and o["name"] not in seen and not o.get("known"):
-                    seen.add(o["name"])
+                if o["status"] == "failed" and o["model"] and not o.get("known"):
+                    if seen.get(o["name"], 0) >= 4 or o["name"] in done:
+                        continue
+                    seen[o["name"]] = seen.get(o["name"], 0) + 1
                     r = rp.replay(key, o["model"], o)
                     out["refutations"].append({"bound": K, "obligation": o["name"], "kind": o["kind"], "label": o["label"],
                                                "path": o["path"], "model": o["model"], "replay": r})
                     if r.get("reproduced"):
                         found = True
+                        done.add(o["name"])
             if found:
                 break
     out["secs"] = round(time.time() - t0, 3)
@@ -165,7 +169,7 @@ def report(prop, tier, seed, results, known, assumed, t0, verbose):
             doc = {"property": prop, "function": r["key"], "obligation": name,
                    "status": "refuted" if (sat_proof or mine) else "unknown",
                    "verifier_output": [{k: o[k] for k in ("path", "status", "backend", "detail", "line", "model")} for o in obs[:3]],
-                   "refutation_search": r["refutations"][:6]}
+                   "refutation_search": r["refutations"][:8]}
             if rep is not None:
                 doc["failing_input"] = rep["model"]
                 doc["native_replay"] = rep["replay"]
